@@ -548,4 +548,161 @@ theorem parseOne_post (cfg : Cfg) (fs : FS) (root : APath) (hc : CleanImports cf
         simp only [List.map_cons, List.map_nil, specFrom, List.append_nil, hpf]
         exact outOf_perm_violations cfg (showPath file) contents st1.reg reg m hreg hbind
 
+/-! ### whole programs -/
+
+theorem outcome_of_errors (errs : List Diag) :
+    (if errs.isEmpty then Outcome.ok else Outcome.diags errs) = (if errs = [] then Outcome.ok else Outcome.diags errs) := by
+  cases errs <;> simp
+
+/-- **The multi-file front end reports exactly the specification's violations.** Let `prog` be the program reachable
+    from `root`, files in finish order (`programInOrder`). Assume
+    * (H1, H2) `CleanImports`: every reachable file is IDL text inside the grammar, has no `@extern` line, each of its
+      `@import` lines resolves to a file, and no chain of imports leads back to the file it starts from;
+    * (H3) no qualified name is declared twice — by two declarations of the program or by a declaration and a built-in;
+    * the files of the program have pairwise distinct names (`showPath` of their normalised paths: the model keys the
+      resolution map by file name and position);
+    * (H4) within each file, the type references are at pairwise distinct positions.
+
+    Then `front` neither aborts nor runs out of fuel: it returns normally, and the diagnostics `ds` it reports
+    (`.ok` iff there are none) are a permutation of `violationsOrdered` — every violation is reported exactly as often
+    as the specification lists it, with class, rule, file and position, and nothing else is reported. -/
+theorem front_eq_violationsOrdered (cfg : Cfg) (fs : FS) (builtins : Registry) (root : APath) (prog : List ProgFile)
+    (hprog : programInOrder cfg fs.files root = some prog)
+    (hclean : CleanImports cfg fs root)
+    (hdup : ((progRegistry builtins prog).map (·.key)).Nodup)
+    (hnames : (prog.map (·.file)).Nodup)
+    (hpos : ∀ f ∈ prog, RefPositionsDistinct cfg f) :
+    ∃ ds, front cfg fs builtins root = (if ds = [] then Outcome.ok else Outcome.diags ds)
+      ∧ ds.Perm (violationsOrdered cfg.keys cfg.defaultDeriving builtins prog) := by
+  rw [programInOrder_eq] at hprog
+  have hprog' : prog = (rootOrder cfg fs root).map (progFile fs) := (Option.some.inj hprog).symm
+  subst hprog'
+  have hgood : Good cfg fs builtins (rootOrder cfg fs root) := by
+    refine ⟨?_, ?_, fun q hq => hpos _ (List.mem_map.mpr ⟨q, hq, rfl⟩)⟩
+    · rw [← progRegistry_files]; exact hdup
+    · rw [List.map_map] at hnames; exact hnames
+  have h := parseOne_post cfg fs root hclean builtins (fs.files.length + 2) [] (normPath root) root { reg := builtins }
+    ([normPath root], []) .root (fun q hq => by cases hq) (SelfOk.root fs root) (Visited.root root) (by simp)
+    (fun f p hne => absurd rfl hne) hgood
+  rcases h with h | ⟨res, st', new, errs, hok, hout, _, _, _, herr, hperm⟩
+  · exfalso
+    refine parseOne_fuel_sufficient cfg fs _ _ _ _ _ ?_ h
+    have := remaining_le fs ([] : List APath)
+    simp only; omega
+  · have hnew : new = rootOrder cfg fs root := by
+      have : rootOrder cfg fs root = [] ++ new := hout
+      rw [this]; rfl
+    subst hnew
+    refine ⟨errs, ?_, ?_⟩
+    · unfold front
+      rw [hok]
+      simp only [herr, List.nil_append]
+      exact outcome_of_errors errs
+    · rw [violationsOrdered_eq_specFrom]; exact hperm
+
+/-- **Accepted iff no violation**: under the hypotheses of `front_eq_violationsOrdered`, the front end accepts the
+    program iff the specification finds no violation in it. -/
+theorem front_accepts_iff (cfg : Cfg) (fs : FS) (builtins : Registry) (root : APath) (prog : List ProgFile)
+    (hprog : programInOrder cfg fs.files root = some prog)
+    (hclean : CleanImports cfg fs root)
+    (hdup : ((progRegistry builtins prog).map (·.key)).Nodup)
+    (hnames : (prog.map (·.file)).Nodup)
+    (hpos : ∀ f ∈ prog, RefPositionsDistinct cfg f) :
+    front cfg fs builtins root = .ok ↔ violationsOrdered cfg.keys cfg.defaultDeriving builtins prog = [] := by
+  obtain ⟨ds, hfront, hperm⟩ := front_eq_violationsOrdered cfg fs builtins root prog hprog hclean hdup hnames hpos
+  rw [hfront]
+  constructor
+  · intro h
+    by_cases hds : ds = []
+    · subst hds; exact hperm.symm.eq_nil
+    · rw [if_neg hds] at h; cases h
+  · intro h
+    rw [h] at hperm
+    rw [if_pos hperm.eq_nil]
+
+/-- membership form of `front_eq_violationsOrdered` -/
+theorem front_mem_iff (cfg : Cfg) (fs : FS) (builtins : Registry) (root : APath) (prog : List ProgFile)
+    (hprog : programInOrder cfg fs.files root = some prog)
+    (hclean : CleanImports cfg fs root)
+    (hdup : ((progRegistry builtins prog).map (·.key)).Nodup)
+    (hnames : (prog.map (·.file)).Nodup)
+    (hpos : ∀ f ∈ prog, RefPositionsDistinct cfg f) :
+    ∃ ds, front cfg fs builtins root = (if ds = [] then Outcome.ok else Outcome.diags ds)
+      ∧ ∀ x, x ∈ ds ↔ x ∈ violationsOrdered cfg.keys cfg.defaultDeriving builtins prog := by
+  obtain ⟨ds, hfront, hperm⟩ := front_eq_violationsOrdered cfg fs builtins root prog hprog hclean hdup hnames hpos
+  exact ⟨ds, hfront, fun x => hperm.mem_iff⟩
+
+/-- **Split invariance for the model (C11).** Two programs — two file systems, two roots, possibly two
+    configurations with the same target keys and default deriving — that satisfy the hypotheses of
+    `front_eq_violationsOrdered`, have the same declarations up to order and grouping into files, and are both
+    dependency-closed (`Closed`; this includes H3) are accepted together and get the same diagnostics up to order. -/
+theorem front_split_invariance (cfg cfg' : Cfg) (fs fs' : FS) (builtins : Registry) (root root' : APath)
+    (prog prog' : List ProgFile)
+    (hk : cfg.keys = cfg'.keys) (hd : cfg.defaultDeriving = cfg'.defaultDeriving)
+    (hprog : programInOrder cfg fs.files root = some prog) (hprog' : programInOrder cfg' fs'.files root' = some prog')
+    (hclean : CleanImports cfg fs root) (hclean' : CleanImports cfg' fs' root')
+    (hnames : (prog.map (·.file)).Nodup) (hnames' : (prog'.map (·.file)).Nodup)
+    (hpos : ∀ f ∈ prog, RefPositionsDistinct cfg f) (hpos' : ∀ f ∈ prog', RefPositionsDistinct cfg' f)
+    (hdecls : (progDecls prog).Perm (progDecls prog'))
+    (hcl : Closed builtins prog) (hcl' : Closed builtins prog') :
+    ∃ ds ds', front cfg fs builtins root = (if ds = [] then Outcome.ok else Outcome.diags ds)
+      ∧ front cfg' fs' builtins root' = (if ds' = [] then Outcome.ok else Outcome.diags ds')
+      ∧ ds.Perm ds'
+      ∧ (front cfg fs builtins root = .ok ↔ front cfg' fs' builtins root' = .ok) := by
+  obtain ⟨ds, hfront, hperm⟩ := front_eq_violationsOrdered cfg fs builtins root prog hprog hclean hcl.1 hnames hpos
+  obtain ⟨ds', hfront', hperm'⟩ := front_eq_violationsOrdered cfg' fs' builtins root' prog' hprog' hclean' hcl'.1 hnames' hpos'
+  have hsplit := split_invariance cfg.keys cfg.defaultDeriving builtins prog prog' hdecls hcl hcl'
+  rw [← hk, ← hd] at hperm'
+  refine ⟨ds, ds', hfront, hfront', hperm.trans (hsplit.trans hperm'.symm), ?_⟩
+  rw [front_accepts_iff cfg fs builtins root prog hprog hclean hcl.1 hnames hpos,
+    front_accepts_iff cfg' fs' builtins root' prog' hprog' hclean' hcl'.1 hnames' hpos', ← hk, ← hd]
+  exact split_invariance_accepted cfg.keys cfg.defaultDeriving builtins prog prog' hdecls hcl hcl'
+
+/-! ### one file -/
+
+theorem reachable_of_no_loads (cfg : Cfg) (fs : FS) (root : APath) (h : loadsOf fs (normPath root) = [])
+    (n : APath × APath) (hn : Reachable cfg fs root n) : n = (normPath root, root) := by
+  induction hn with
+  | root => rfl
+  | step _ hedge ih =>
+    subst ih
+    obtain ⟨l, hl, _⟩ := hedge
+    rw [h] at hl; cases hl
+
+theorem importPath_first (cfg : Cfg) (fs : FS) (a b : APath × APath) (h : ImportPath cfg fs a b) :
+    ∃ c, ImportEdge cfg fs a c := by
+  induction h with
+  | single hedge => exact ⟨_, hedge⟩
+  | tail _ _ ih => exact ih
+
+/-- **The one-file special case**: a root file inside the grammar without `@import`/`@extern` lines, whose declared
+    names are pairwise distinct and not built-ins, with references at pairwise distinct positions: `front` reports
+    a permutation of `violations` of the one-file program. -/
+theorem front_single_file (cfg : Cfg) (fs : FS) (builtins : Registry) (root : APath) (text : String) (contents : List Content)
+    (hfile : fs.get (normPath root) = some (.idl text))
+    (hpt : parseText text = some { loads := [], contents := contents })
+    (hdup : ((progRegistry builtins [{ file := showPath (normPath root), contents := contents }]).map (·.key)).Nodup)
+    (hpos : RefPositionsDistinct cfg { file := showPath (normPath root), contents := contents }) :
+    ∃ ds, front cfg fs builtins root = (if ds = [] then Outcome.ok else Outcome.diags ds)
+      ∧ ds.Perm (violations cfg.keys cfg.defaultDeriving builtins [{ file := showPath (normPath root), contents := contents }]) := by
+  have hloads : loadsOf fs (normPath root) = [] := loadsOf_eq fs _ text _ hfile hpt
+  have hclean : CleanImports cfg fs root := by
+    refine ⟨fun n hn => ?_, fun n hn l hl => ?_, fun n hn l hl => ?_, fun n n' hn hp => ?_⟩
+    · rw [reachable_of_no_loads cfg fs root hloads n hn]; exact ⟨text, _, hfile, hpt⟩
+    · rw [reachable_of_no_loads cfg fs root hloads n hn, hloads] at hl; cases hl
+    · rw [reachable_of_no_loads cfg fs root hloads n hn, hloads] at hl; cases hl
+    · obtain ⟨c, l, hl, _⟩ := importPath_first cfg fs n n' hp
+      rw [reachable_of_no_loads cfg fs root hloads n hn, hloads] at hl; cases hl
+  have horder : rootOrder cfg fs root = [normPath root] := by
+    unfold rootOrder
+    rw [finishOrder_succ]
+    simp only [hfile, hpt, List.foldl_nil, List.nil_append]
+  have hprog : programInOrder cfg fs.files root = some [{ file := showPath (normPath root), contents := contents }] := by
+    rw [programInOrder_eq, horder]
+    simp only [List.map_cons, List.map_nil, progFile_eq fs _ text _ hfile hpt]
+  obtain ⟨ds, hfront, hperm⟩ := front_eq_violationsOrdered cfg fs builtins root _ hprog hclean hdup (by simp)
+    (fun f hf => by simp only [List.mem_singleton] at hf; subst hf; exact hpos)
+  rw [violationsOrdered_single] at hperm
+  exact ⟨ds, hfront, hperm⟩
+
 end Pydjinni.Front
